@@ -72,6 +72,22 @@ def mutations(valid, rnd, n_random):
         yield bytes(rnd.getrandbits(8) for _ in range(rnd.randint(0, 40)))
 
 
+def relen(valid, start, rnd):
+    """grammar-aware: truncate / extend the body behind the length byte at index `start` and FIX the length byte, so
+    that the mutation passes the frame-length check and reaches the PDU decoders"""
+    for v in valid:
+        head, body = v[:start], v[start + 1:]
+        for k in range(len(body) + 1):
+            yield head + bytes([(k + 1) & 0xFF]) + body[:k]
+        for extra in (1, 2, 5):
+            b = body + bytes(rnd.getrandbits(8) for _ in range(extra))
+            yield head + bytes([(len(b) + 1) & 0xFF]) + b
+        for k in range(len(body)):
+            for x in (0x00, 0xFF, body[k] ^ 0x01, body[k] ^ 0x80):
+                b = body[:k] + bytes([x]) + body[k + 1:]
+                yield head + bytes([(len(b) + 1) & 0xFF]) + b
+
+
 def dep_obj(role, brty):
     class T(object):
         pass
@@ -193,6 +209,8 @@ def part_a(tier, seed):
                             feed(entry, fn, bytes([a, c, b]))
             for d in mutations(valid_dep_frames(role, brty), rnd, n_rand // 2):
                 feed(entry, fn, d)
+            for d in relen(valid_dep_frames(role, brty), 1 if brty == "106A" else 0, rnd):
+                feed(entry, fn, d)
 
     # emulated Type 3 Tag commands
     emu = make_emu()
@@ -200,6 +218,8 @@ def part_a(tier, seed):
     for d in [b""] + [bytes([a]) for a in range(256)] + [bytes([a, b]) for a in range(0, 20) for b in range(256)]:
         feed("tt3emu.process_command", lambda d: emu.process_command(bytearray(d)), d)
     for d in mutations(cmds, rnd, n_rand // 2):
+        feed("tt3emu.process_command", lambda d: emu.process_command(bytearray(d)), d)
+    for d in relen(cmds, 0, rnd):
         feed("tt3emu.process_command", lambda d: emu.process_command(bytearray(d)), d)
 
     # SNEP / handover request data as handed over by the serve loops (SNEP: at least the 6 byte header)
@@ -246,6 +266,10 @@ def frame_mutator(cls, arg, rnd):
     def f(d):
         if cls == "trunc":
             return d[:min(arg, len(d))]
+        if cls == "truncfix":
+            k = 1 if d[:1] == b"\xF0" else 0
+            body = d[k + 1:][:max(0, len(d) - k - 1 - arg)]
+            return d[:k] + bytes([len(body) + 1]) + body
         if cls == "byte":
             k = arg % max(1, len(d))
             return d[:k] + bytes([rnd.choice([0, 0xFF, d[k] ^ 1, d[k] ^ 0x80, rnd.getrandbits(8)])]) + d[k + 1:]
@@ -523,7 +547,7 @@ def gen_b(tier, seed):
     ats = list(range(0, 10)) + ([14, 20, 30] if quick else list(range(10, 60, 3)))
     for src in ("I", "T"):
         for at in ats:
-            for cls, args in (("trunc", (0, 1, 2, 3, 4, 5, 17)), ("byte", (0, 1, 2, 3, 4, 16, 17, 18)), ("len", (1, 255, 3)),
+            for cls, args in (("truncfix", (1, 2, 3, 5, 9, 17)), ("trunc", (0, 1, 2, 3, 4, 5, 17)), ("byte", (0, 1, 2, 3, 4, 16, 17, 18)), ("len", (1, 255, 3)),
                               ("random", (0,)), ("short", (1, 3, 6)), ("zeros", (0,)), ("max", (0,)), ("extend", (1,))):
                 for arg in (args if not quick else args[:3]):
                     n += 1
